@@ -5,23 +5,25 @@
 (* and the round-robin cursors of the code are deliberately not modelled:     *)
 (* every result the code produces is judged against `Allowed`.                *)
 (*                                                                            *)
-(* A layout is a sequence of data-centre sizes <<s1, .., sk>>; size 0 means   *)
-(* the data centre is absent.  A node is <<dc, index>>.  The local node is    *)
-(* <<1, 1>> (it is always part of its own membership).                        *)
+(* A layout is a sequence of data centres, each the SET of node indexes that  *)
+(* are currently members of it (an empty set means the data centre is         *)
+(* absent).  A node is <<dc, index>>, so a membership update can replace a    *)
+(* node by another one without changing any size.  The local node is <<1, 1>> *)
+(* (it is always part of its own membership).                                 *)
 EXTENDS Naturals, Sequences, FiniteSets
 
 Levels == {"None", "One", "Two", "Three", "Quorum", "LocalQuorum", "All", "EachQuorum"}
 Local == <<1, 1>>
 
-NodesOf(layout) == { <<d, i>> : d \in 1..Len(layout), i \in 1..4 } \cap
-                   { n \in (1..Len(layout)) \X (1..4) : n[2] <= layout[n[1]] }
+NodesOf(layout) == UNION { { <<d, i>> : i \in layout[d] } : d \in 1..Len(layout) }
+Size(layout, d) == Cardinality(layout[d])
 Others(layout) == NodesOf(layout) \ {Local}
 Total(layout) == Cardinality(NodesOf(layout))
 
 RECURSIVE SumOther(_, _)
 SumOther(layout, d) ==   \* sum over data centres d..k other than the local one (1) of floor(size/2)+1, absent ones skipped
   IF d > Len(layout) THEN 0
-  ELSE (IF d # 1 /\ layout[d] > 0 THEN (layout[d] \div 2) + 1 ELSE 0) + SumOther(layout, d + 1)
+  ELSE (IF d # 1 /\ layout[d] # {} THEN (Size(layout, d) \div 2) + 1 ELSE 0) + SumOther(layout, d + 1)
 
 \* how many OTHER live nodes the level requires
 Required(layout, level) ==
@@ -30,8 +32,8 @@ Required(layout, level) ==
     [] level = "Two"         -> 2
     [] level = "Three"       -> 3
     [] level = "Quorum"      -> Total(layout) \div 2        \* with the issuer a majority of N
-    [] level = "LocalQuorum" -> layout[1] \div 2
-    [] level = "EachQuorum"  -> (layout[1] \div 2) + SumOther(layout, 1)
+    [] level = "LocalQuorum" -> Size(layout, 1) \div 2
+    [] level = "EachQuorum"  -> (Size(layout, 1) \div 2) + SumOther(layout, 1)
     [] level = "All"         -> Total(layout) - 1
 
 \* a successful selection `res` (a sequence of nodes)
